@@ -146,6 +146,10 @@ def allowList : List Allow := [
   { fn := "(*schema.ObjectSchema).unserializeToStruct$1", kind := "extern (reflect.Value).Set",
     target := "^f",
     reason := "`f` is `field` or a pointer made by reflect.New: memory of the enclosing call" },
+  { fn := "(*schema.ObjectSchema).unserializeToStruct", kind := "extern (reflect.Value).Set",
+    target := "local",
+    reason := "the embedded struct pointer that is allocated is a field of the struct made by \
+      reflect.New at the top of this call (the extractor itself classifies the target as local)" },
   { fn := "(schema.OneOfSchema[int64]).UnserializeType[int64]", kind := "mapupdate",
     target := "invoke Unserialize()",
     reason := "the map is the result of Object.Unserialize of the selected member; every Object of the \
@@ -180,7 +184,7 @@ def readOnlyExterns : List String := [
   "(reflect.Value).MapIndex", "(reflect.Value).MapKeys", "(reflect.Value).MethodByName",
   "(reflect.Value).String", "(reflect.Value).Type", "(reflect.Value).Uint", "(reflect.Value).IsZero",
   "(reflect.Value).Field", "(reflect.Value).NumField", "(reflect.Value).MapRange", "(reflect.Value).CanInterface",
-  "(reflect.Value).Pointer",
+  "(reflect.Value).Pointer", "(reflect.Value).CanSet",
   "maps.Clone", "slices.Clone", "reflect.DeepEqual", "reflect.Indirect", "reflect.MapOf", "reflect.New",
   "reflect.SliceOf", "reflect.TypeOf", "reflect.ValueOf", "strings.Join", "fmt.Sprintf", "fmt.Errorf",
   "fmt.Sprint", "errors.Is", "errors.Unwrap"
